@@ -19,6 +19,9 @@
 //     secret store owned by the harness, fs) while the store reports conflicts / failures / stale answers, another client writes the same
 //     name between existence check and write, or several creators race for one name; the public key a successful creation hands out must
 //     be the public half of the key held - and used - under that name / key id.
+//  7. key id relatives monitor (relatives_test.go): key ids the node does NOT hold that are textual relatives of ids it holds (percent-decoded /
+//     -encoded / double-encoded, hex case, letter case, white space, unicode look-alikes, fragment, affixes, SQL wild cards, separators) through
+//     every signing / decrypting entry point; such a request must be refused or served from the key published for exactly the requested id.
 package c03
 
 import (
@@ -398,6 +401,9 @@ func TestCheck(t *testing.T) {
 		"a second creation of the same name after a failed one (seeded behaviour), and 2-6 concurrent creators of one name (external store: the existence checks of the first k creators are answered only when all k arrived, the others start when the first write landed; fs: released together, unsteered); " +
 		"a creation that reported success must have handed out the public half of the key the store holds under the name (reference: the store's own table, parsed with the standard library), every Resolve / SignJWT / SignJWS / SignDPoP / Decrypt result for the key id and a signature by the signer the back end returns for the name must come from that published key, " +
 		"and the key id of a failed creation must be unusable; non-trivial when the verdict could be taken (how many creators succeed and orphan secrets are not judged). " +
+		"(g) key id relatives (key store, family of held ids, relation class/variant, entry point): families of registered ids (did:web with a port in decoded form, in encoded form, both forms and the lower-hex form side by side, doubly encoded + plain with the singly encoded form missing, did:nuts, non-ASCII, space/plus/literal escape, uuid; seeded names and ports), each id with a key of its own, on the node's key store (Go + HTTP) and on the versioned key store (Go); " +
+		"for every held id every relative that is not itself registered (classes pct-decoded, pct-encoded, pct-hex-case, pct-double-encoded, case, whitespace, unicode, fragment, affix, sql, separator; positions seeded) is requested through SignJWT, SignJWS, SignDPoP, Decrypt, DecryptJWE, sign_jwt, sign_jws, dpop (key id in the path, two escapings), decrypt_jwe " +
+		"(quick: the non-percent classes through a rotating third of the HTTP entry points), before or after (seeded) the held ids were used; held ids must be served from exactly their own key; non-trivial when the request was refused (relative) / served from the designated key (held id). " +
 		"OKP X25519 and oct keys (families the node cannot hold) and foreign keys over HTTP sign_jws are driven too, an echo of those is unspecified. " +
 		"Canary patterns: raw, hex (lower/upper/trimmed/colon), Go and JSON byte lists, base64url/base64 (padded, unpadded, and the two shifted alignments inside a larger base64 container), decimal, PEM body lines and DER chunk of every secret component (EC D; RSA D, primes, CRT values; Ed25519 seed); " +
 		fmt.Sprintf("patterns shorter than %d bytes are skipped to avoid coincidences. Streams are searched as emitted, with whitespace/escaped line breaks removed, and after decoding every base64url/base64/hex run (nested, depth 4).", minPatternLen))
@@ -451,6 +457,7 @@ func TestCheck(t *testing.T) {
 	h.phaseGoAPI(n1)
 	h.phaseJWKHeaderFamilies(n1)
 	h.phaseKidLifecycle(n1)
+	h.phaseKidRelatives(n1)
 	h.phaseKeyCreation()
 	h.scan("go-api")
 	n2 := h.phaseDIDNuts(verbosity, env, namer)
